@@ -99,6 +99,9 @@ class CellFold:
                 if v != 0:
                     return True
                 continue
+            from sympy.core.function import AppliedUndef
+            if v.atoms(AppliedUndef):
+                return True         # an opaque atom (an unread selection, a foreign function) survives in the difference: not the reference
             scale = sum(abs(sp.N(t, 40)) for t in sp.Add.make_args(v)) or 1
             if abs(sp.N(v, 40)) > scale * sp.Float("1e-30"):
                 return True
